@@ -528,9 +528,10 @@ def replay(ctx: Ctx, obj) -> int:
         return 0 if json.dumps(t) == json.dumps(s) else 1
     if kind == "rows":
         s, b = r["shots"], r["batch_size"]
-        out = tsim.Circuit("X_ERROR(1) 0\nM 0 1").compile_sampler(seed=0).sample(s, batch_size=b) if b else None
-        print("shape now:", None if out is None else out.shape, "expected", (s, 2))
-        return 0 if out is not None and out.shape == (s, 2) else 1
+        smp = tsim.Circuit("X_ERROR(1) 0\nM 0 1").compile_sampler(seed=0)
+        out = safe(lambda: smp.sample(s, batch_size=b) if b else smp._sample_batches(s, None))
+        print("now:", describe(out), "expected", (s, 2))
+        return 0 if not isinstance(out, Exception) and out.shape == (s, 2) and out.dtype == np.bool_ else 1
     if kind in ("sweep", "pack"):
         fl = tuple(r["flags"][n] for n in FLAG_NAMES) if "flags" in r else None
         c = tsim.Circuit(r["circuit"])
